@@ -33,6 +33,10 @@ OBLIGATIONS = [
 
 RC = sum([["--replace-calls", a + ":" + b] for a, b in (("fe25519_cswap", "s_fe_cswap"), ("fe25519_mul", "s_fe_binop"), ("fe25519_add", "s_fe_binop"), ("fe25519_sub", "s_fe_binop"),
       ("fe25519_sq", "s_fe_unop"), ("fe25519_copy", "s_fe_unop"), ("_sodium_fe25519_invert", "s_fe_unop"), ("fe25519_mul32", "s_fe_mul32"), ("_sodium_fe25519_frombytes", "s_fe_frombytes"), ("_sodium_fe25519_tobytes", "s_fe_tobytes"))], [])
+OBLIGATIONS.append(ob("c05.f.generic_api", "harness/generic_c05.c", "hf_generic_c05", ["crypto_scalarmult", "crypto_scalarmult_base", "crypto_box_seed_keypair", "crypto_box_keypair", "crypto_box_beforenm", "crypto_box_afternm", "crypto_box_open_afternm", "crypto_box", "crypto_box_open", "size accessors"],
+    "the generic crypto_scalarmult* and crypto_box key-generation / key-agreement / NaCl entry points call the Curve25519 function exactly once with the caller's arguments unchanged and in order and return its verdict (incl. the all-zero shared-secret failure and the verification verdicts)",
+    props=("C05",), replayable=True, cbmc=["--unwind", "10", "--unwinding-assertions"],
+    assumes=["the crypto_scalarmult_curve25519* / crypto_box_curve25519xsalsa20poly1305* callees are logging stubs with an arbitrary verdict here (their own obligations: c05.f.dispatch*, c05.f.box_*, box.*)"]))
 OBLIGATIONS.append(ob("c05.f.ladder_structure", "harness/x25519.c", "hf_ladder", ["crypto_scalarmult_curve25519_ref10", "has_small_order"],
     "X25519 ref10: low-order points refused first; scalar clamped per RFC 7748; the ladder performs 255 steps whose conditional-swap bits are those of the clamped scalar, top bit first",
     gi_pre=RC, replayable=False, cbmc=["--unwind", "260", "--unwinding-assertions"], timeout=900,
